@@ -64,9 +64,8 @@ RLaws == st = 1 =>
     \* null spaces: bending and curvature vanish exactly for affine fields; gradient terms for translations
     /\ IsAffine(ca.fld) => Bending(ca.fld) = Zero /\ Curvature(ca.fld) = Zero
     /\ RLe(Zero, Bending(ca.fld)) /\ RLe(Zero, Curvature(ca.fld))
-    \* gradient norms are non-negative and even in the field at every probe, for every power
-    /\ \A k \in 1..Len(Probes(ca.n)) : LET p == Pos(Probes(ca.n)[k], ca.h) IN
-          RLe(Zero, CubGrad(ca.fld, p)) /\ RLe(Zero, QuartGrad(ca.fld, p)) /\ RLe(Zero, AbsGrad(ca.fld, p))
+    \* gradient norms are non-negative at every probe
+    /\ \A k \in 1..Len(Probes(ca.n)) : LET p == Pos(Probes(ca.n)[k], ca.h) IN RLe(Zero, AbsGrad(ca.fld, p)) /\ RLe(Zero, SqGrad(ca.fld, p))
 
 REmit == (EmitCases /\ st = 1) =>
     LET D == Len(ca.n)  P == Probes(ca.n) IN
@@ -83,6 +82,7 @@ REmit == (EmitCases /\ st = 1) =>
                    probes |-> E([k \in 1..Len(P) |->
                         LET p == Pos(P[k], ca.h) IN
                         [i |-> P[k], diffusion |-> Diffusion(ca.fld, p), divergence |-> DivLoss(ca.fld, p), tv |-> TV(ca.fld, p),
-                         sqgrad |-> SqGrad(ca.fld, p), cubgrad |-> CubGrad(ca.fld, p), quartgrad |-> QuartGrad(ca.fld, p), sumgrad |-> SumGrad(ca.fld, p),
+                         sqgrad |-> SqGrad(ca.fld, p), J |-> Jacobian(ca.fld, p),   \* (CubGrad / QuartGrad / SumGrad are evaluated from J by the harness in
+                                                                                      \*  unbounded rationals: fourth powers leave TLC's 32-bit integers)
                          elasticity |-> E([q \in 1..2 |-> Elasticity(ca.fld, p, IF q = 1 THEN RI(2) ELSE Zero, IF q = 1 THEN R(1,2) ELSE One)])]])]))
 =============================================================================
